@@ -68,4 +68,10 @@ CHECKS = {
         "assumptions": ["timestamp order is the implementation's plain (seconds, fraction) order (LessV), as the statement says", "schedules are those the Go runtime produces; not enumerated"],
         "timeout_quick": 600, "timeout_thorough": 2400,
     },
+    "C10": {
+        "pkg": "c10",
+        "rule": "rapid-generated NTS requests/responses/cookies built with the project's encoder, each followed by an exhaustive single-bit and field-level mutation sweep judged against an independent walker + miscreant AES-SIV.",
+        "assumptions": ["miscreant (the AEAD library the project uses) is trusted as the reference AES-SIV", "the authenticator's own extension length field and bytes after the ciphertext are neither authenticated nor used: changes there are not required to be rejected"],
+        "timeout_quick": 600, "timeout_thorough": 2400,
+    },
 }
